@@ -44,4 +44,6 @@ def run(ctx, rep):
     rep.run(RF.rule_parent_walk_truthiness, ctx, rep, "N9")
     rep.run(RI.rule_flat_name_of_nested_arguments, ctx, rep, "N10")
     rep.run(RI.rule_typedef_yields_one_instantiation, ctx, rep, "N11")
+    # N12: the instantiation refers in C++ to Name<args> with every argument spelled in full (= C04 B14, by evaluation)
+    rep.run(RI.rule_explicit_template_arguments_by_evaluation, ctx, rep, "N12")
     rep.run(RF.rule_locals_defined, ctx, rep, "U1", packages=("gtwrap/template_instantiator",), min_functions=3)
